@@ -544,6 +544,16 @@ func subsDirect(n int) «Iter[«Iter[int]»]» {
 	return nil
 }
 
+// a generator LITERAL held by a package-level variable, instantiated several times
+var pkgLit = func(k int) «Iter[int]» {
+	step := 0
+	for i := 0; i < 3; i++ {
+		step += k
+		«Yield»(k*100 + step)
+	}
+	return nil
+}
+
 func subsRange1(xs []int) «Iter[SubIt]» {
 	for _, v := range xs {
 		«Yield»(`+lit("\t\t\t«Yield»(v)\n\t\t\tv += 100\n\t\t\t«Yield»(v)\n\t\t\tv += 100\n\t\t\t«Yield»(v)\n")+`)
@@ -582,6 +592,7 @@ func subsBodyVar(n int) «Iter[subBox]» {
 	genRef := strings.NewReplacer(
 		"func subsRange2(xs []int) «Iter[SubIt]» {\n", "func subsRange2(xs []int) «Iter[SubIt]» {\n\treturn refco.Go(func(ʏ *refco.Y[SubIt]) {\n",
 		"func subsDirect(n int) «Iter[«Iter[int]»]» {\n", "func subsDirect(n int) «Iter[«Iter[int]»]» {\n\treturn refco.Go(func(ʏ *refco.Y[«Iter[int]»]) {\n",
+		"var pkgLit = func(k int) «Iter[int]» {\n", "var pkgLit = func(k int) «Iter[int]» {\n\treturn refco.Go(func(ʏ *refco.Y[int]) {\n",
 		"func subsRange1(xs []int) «Iter[SubIt]» {\n", "func subsRange1(xs []int) «Iter[SubIt]» {\n\treturn refco.Go(func(ʏ *refco.Y[SubIt]) {\n",
 		"func subsInt(n int) «Iter[SubIt]» {\n", "func subsInt(n int) «Iter[SubIt]» {\n\treturn refco.Go(func(ʏ *refco.Y[SubIt]) {\n",
 		"func subsString(s string) «Iter[SubIt]» {\n", "func subsString(s string) «Iter[SubIt]» {\n\treturn refco.Go(func(ʏ *refco.Y[SubIt]) {\n",
@@ -661,6 +672,19 @@ func UseSubsLazy(a, b int) int {
 		for v := range «RANGE(it)» {
 			s = s*3 + v
 		}
+	}
+	// two instances of the package-level literal, advanced alternately
+	p, q := pkgLit(a), pkgLit(b)
+	for i := 0; i < 4; i++ {
+		if p.MoveNext() {
+			s = s*3 + p.Current()
+		}
+		if i%%2 == 0 && q.MoveNext() {
+			s = s*3 + q.Current()
+		}
+	}
+	for q.MoveNext() {
+		s = s*3 + q.Current()
 	}
 	return vrt.V(%[4]d, s)
 }
